@@ -29,6 +29,7 @@ const (
 	vfObjConst
 	vfObjLabel
 	vfObjUniverse
+	vfObjEmbedded // embedded field (its name is also a type name)
 	vfObjKinds
 )
 
@@ -40,6 +41,8 @@ func vfObject(kind int, pkg *types.Package, name string, imported *types.Package
 		return types.NewVar(token.NoPos, pkg, name, types.Typ[types.Int])
 	case vfObjField:
 		return types.NewField(token.NoPos, pkg, name, types.Typ[types.Int], false)
+	case vfObjEmbedded:
+		return types.NewField(token.NoPos, pkg, name, types.Typ[types.Int], true)
 	case vfObjFunc:
 		return types.NewFunc(token.NoPos, pkg, name, types.NewSignature(nil, nil, nil, false))
 	case vfObjTypeName:
@@ -235,6 +238,10 @@ func VerifC09Goast() {
 	}
 	if dot {
 		vfAssert(gerr != nil, "dot-import-is-an-error-not-a-guess")
+		// also for a bare identifier (which is how dot-imported names are used)
+		bare := &ast.Ident{Name: "Println"}
+		_, berr := gr.ResolveIdent(file, &ast.CallExpr{Fun: bare}, "Fun", bare)
+		vfAssert(berr != nil, "dot-import-is-an-error-for-bare-identifiers-too")
 		return
 	}
 	vfAssert(vfImplies(sameName, gerr != nil), "two-imports-one-name-is-an-error-not-a-guess")
